@@ -9,6 +9,7 @@
 #include <adm/parse.hpp>
 #include <adm/write.hpp>
 #include <adm/common_definitions.hpp>
+#include <regex>
 
 namespace {
 
@@ -37,22 +38,29 @@ template <typename P> std::string id1(const P& p) {
 }
 
 // every element, every parameter, every block, every reference (by target ID), in document order
-std::vector<std::string> dump_doc(const std::shared_ptr<Document>& d) {
+template <typename E> bool written(const E& e, bool all) {
+  // the writer leaves out elements whose ID lies in the common-definitions range (value <= 0x0fff)
+  typedef typename E::id_type Id;
+  return all || !isCommonDefinitionsId(e.template get<Id>());
+}
+std::vector<std::string> dump_doc(const std::shared_ptr<Document>& d, bool all = true) {
   std::vector<std::string> out;
   for (auto const& e : d->getElements<AudioProgramme>())
-    out.push_back("prog " + others_AudioProgramme(*e, "") + " cont=" + ids_of(e->getReferences<AudioContent>()));
+    if (written(*e, all)) out.push_back("prog " + others_AudioProgramme(*e, "") + " cont=" + ids_of(e->getReferences<AudioContent>()));
   for (auto const& e : d->getElements<AudioContent>())
-    out.push_back("cont " + others_AudioContent(*e, "") + " obj=" + ids_of(e->getReferences<AudioObject>()));
+    if (written(*e, all)) out.push_back("cont " + others_AudioContent(*e, "") + " obj=" + ids_of(e->getReferences<AudioObject>()));
   for (auto const& e : d->getElements<AudioObject>())
-    out.push_back("obj " + others_AudioObject(*e, "") + " obj=" + ids_of(e->getReferences<AudioObject>()) +
+    if (written(*e, all)) out.push_back("obj " + others_AudioObject(*e, "") + " obj=" + ids_of(e->getReferences<AudioObject>()) +
                   " pack=" + ids_of(e->getReferences<AudioPackFormat>()) + " uid=" + ids_of(e->getReferences<AudioTrackUid>()) +
                   " compl=" + ids_of(e->getComplementaryObjects()));
   for (auto const& e : d->getElements<AudioPackFormat>()) {
+    if (!written(*e, all)) continue;
     auto hoa = std::dynamic_pointer_cast<AudioPackFormatHoa>(e);
     out.push_back("pack " + others_AudioPackFormat(*e, "") + (hoa ? " hoa{" + others_AudioPackFormatHoa(*hoa, "") + "}" : std::string("")) +
                   " pack=" + ids_of(e->getReferences<AudioPackFormat>()) + " chan=" + ids_of(e->getReferences<AudioChannelFormat>()));
   }
   for (auto const& e : d->getElements<AudioChannelFormat>()) {
+    if (!written(*e, all)) continue;
     out.push_back("chan " + others_AudioChannelFormat(*e, ""));
     dump_blocks<AudioBlockFormatDirectSpeakers>(out, *e, "ds", [](const AudioBlockFormatDirectSpeakers& b) { return others_AudioBlockFormatDirectSpeakers(b, ""); });
     dump_blocks<AudioBlockFormatMatrix>(out, *e, "mx", [](const AudioBlockFormatMatrix& b) { return others_AudioBlockFormatMatrix(b, ""); });
@@ -61,6 +69,7 @@ std::vector<std::string> dump_doc(const std::shared_ptr<Document>& d) {
     dump_blocks<AudioBlockFormatBinaural>(out, *e, "bi", [](const AudioBlockFormatBinaural& b) { return others_AudioBlockFormatBinaural(b, ""); });
   }
   for (auto const& e : d->getElements<AudioStreamFormat>()) {
+    if (!written(*e, all)) continue;
     std::string tr = "[";
     bool first = true;
     for (auto const& w : e->getAudioTrackFormatReferences()) {
@@ -73,9 +82,9 @@ std::vector<std::string> dump_doc(const std::shared_ptr<Document>& d) {
                   " pack=" + id1(e->getReference<AudioPackFormat>()) + " track=" + tr + "]");
   }
   for (auto const& e : d->getElements<AudioTrackFormat>())
-    out.push_back("track " + others_AudioTrackFormat(*e, "") + " stream=" + id1(e->getReference<AudioStreamFormat>()));
+    if (written(*e, all)) out.push_back("track " + others_AudioTrackFormat(*e, "") + " stream=" + id1(e->getReference<AudioStreamFormat>()));
   for (auto const& e : d->getElements<AudioTrackUid>())
-    out.push_back("uid " + others_AudioTrackUid(*e, "") + " track=" + id1(e->getReference<AudioTrackFormat>()) +
+    if (written(*e, all)) out.push_back("uid " + others_AudioTrackUid(*e, "") + " track=" + id1(e->getReference<AudioTrackFormat>()) +
                   " pack=" + id1(e->getReference<AudioPackFormat>()) + " chan=" + id1(e->getReference<AudioChannelFormat>()));
   return out;
 }
@@ -150,28 +159,128 @@ std::string do_fillblock(World& w, const std::vector<std::string>& t) {
   return "ok";
 }
 
+// the dump without the isDefault flags (an explicitly written default comes back as a set value)
+std::vector<std::string> strip_isdefault(std::vector<std::string> v) {
+  static const std::regex re("=([01-]),[01-],");
+  // a structured optional parameter none of whose members is set is written as nothing at all
+  static const std::regex empty("=1,\\{((\\w+=(0,-|-,[^/{}]*)/)*)\\}");
+  // documented stub, excluded by C01 / C02: the content of audioProgrammeReferenceScreen is neither read nor written
+  static const std::regex stub("AudioProgrammeReferenceScreen=[^/]*/");
+  for (auto& l : v) {
+    l = std::regex_replace(l, stub, "");
+    l = std::regex_replace(l, re, "=$1,");
+    for (int i = 0; i < 4; ++i) l = std::regex_replace(l, empty, "=0,-");
+  }
+  return v;
+}
+
+xml::ParserOptions popts(const std::string& env) {
+  return env == "itu" ? xml::ParserOptions::recursive_node_search : xml::ParserOptions::none;
+}
+
+// write -> parse -> write: the two XML texts must be identical (C01), and the re-read document must show the
+// same elements, parameter values, blocks and references as the original one ("read back with the same
+// value, order and target")
 std::string do_roundtrip(World& w, const std::vector<std::string>& t) {
   auto d = w.doc(t.at(1));
   auto wo = wopts(t.at(2), t.at(3));
   std::ostringstream o1;
-  writeXml(o1, d, wo);
+  try {
+    writeXml(o1, d, wo);
+  } catch (const std::exception& e) {
+    return "ok WRITE-FAILED " + sanitize(e.what());
+  }
   std::string x1 = o1.str();
   std::shared_ptr<Document> d2;
   try {
     std::istringstream in(x1);
-    d2 = parseXml(in, t.at(2) == "itu" ? xml::ParserOptions::recursive_node_search : xml::ParserOptions::none);
+    d2 = parseXml(in, popts(t.at(2)));
   } catch (const std::exception& e) {
     return "ok REPARSE-FAILED " + sanitize(e.what());
   }
   std::ostringstream o2;
   writeXml(o2, d2, wo);
   std::string x2 = o2.str();
-  if (x1 == x2) return "ok same";
-  return "ok DIFF " + sanitize(first_diff(split_lines(x1), split_lines(x2)));
+  if (x1 != x2) return "ok DIFF " + sanitize(first_diff(split_lines(x1), split_lines(x2)));
+  auto a = strip_isdefault(dump_doc(d, false)), b = strip_isdefault(dump_doc(d2, false));
+  if (a != b) return "ok DUMPDIFF " + sanitize(first_diff(a, b));
+  return "ok same";
+}
+
+std::string do_showxml(World& w, const std::vector<std::string>& t) {
+  std::ostringstream o;
+  writeXml(o, w.doc(t.at(1)), wopts(t.at(2), t.at(3)));
+  std::string x = o.str(), r = "ok ";
+  for (char c : x) { if (c == '\n') r += "\\n"; else if (c == '\r') r += "\\r"; else r += c; }
+  return r;
+}
+
+// p2w <hex of the XML bytes> <env> <dflt>: parse -> write -> parse; the two parsed documents must show the same
+// elements, IDs, parameter values, block formats and ordered reference lists (C02)
+std::string do_p2w(const std::vector<std::string>& t) {
+  std::string bytes = from_hex(t.at(1));
+  std::shared_ptr<Document> d1, d2;
+  try {
+    std::istringstream in(bytes);
+    d1 = parseXml(in, popts(t.at(2)));
+  } catch (const std::exception& e) {
+    return "ok rejected " + sanitize(e.what());
+  }
+  auto a = strip_isdefault(dump_doc(d1, false));
+  std::ostringstream o;
+  try {
+    writeXml(o, d1, wopts(t.at(2), t.at(3)));
+  } catch (const std::exception& e) {
+    return "ok WRITE-FAILED " + sanitize(e.what());
+  }
+  try {
+    std::istringstream in(o.str());
+    d2 = parseXml(in, popts(t.at(2)));
+  } catch (const std::exception& e) {
+    return "ok REPARSE-FAILED " + sanitize(e.what());
+  }
+  auto b = strip_isdefault(dump_doc(d2, false));
+  if (a != b) return "ok DUMPDIFF " + sanitize(first_diff(a, b));
+  return "ok same " + std::to_string(a.size());
+}
+
+// rej <hex> <env>: does parseXml accept the bytes?
+std::string do_rej(const std::vector<std::string>& t) {
+  std::string bytes = from_hex(t.at(1));
+  try {
+    std::istringstream in(bytes);
+    auto d = parseXml(in, popts(t.at(2)));
+    return "ok accepted " + std::to_string(dump_doc(d, false).size());
+  } catch (const std::exception& e) {
+    return "ok rejected " + sanitize(e.what());
+  }
+}
+
+// bindcd h d kind ty val ctr: gives the script name h to an element already in document d (common definitions)
+std::string do_bindcd(World& w, const std::vector<std::string>& t) {
+  auto doc = w.doc(t.at(2));
+  int k = kind_of(t.at(3));
+  unsigned ty = std::stoul(t.at(4)), val = std::stoul(t.at(5)), ctr = std::stoul(t.at(6));
+  El e;
+  switch (k) {
+    case KPack: e = mk(KPack, doc->lookup(AudioPackFormatId(TypeDescriptor(ty), AudioPackFormatIdValue(val)))); break;
+    case KChan: e = mk(KChan, doc->lookup(AudioChannelFormatId(TypeDescriptor(ty), AudioChannelFormatIdValue(val)))); break;
+    case KStream: e = mk(KStream, doc->lookup(AudioStreamFormatId(TypeDescriptor(ty), AudioStreamFormatIdValue(val)))); break;
+    case KTrack: e = mk(KTrack, doc->lookup(AudioTrackFormatId(TypeDescriptor(ty), AudioTrackFormatIdValue(val), AudioTrackFormatIdCounter(ctr)))); break;
+    default: throw Bad();
+  }
+  if (!e.ptr()) return "ok -";
+  w.bind(t.at(1), e);
+  return "ok";
 }
 
 bool run_xml_op(World& w, const std::vector<std::string>& t, std::string& r) {
   const std::string& c = t[0];
+  if (c == "p2w") { r = do_p2w(t); return true; }
+  if (c == "rej") { r = do_rej(t); return true; }
+  if (c == "commondefs") { addCommonDefinitionsTo(w.doc(t.at(1))); r = "ok"; return true; }
+  if (c == "bindcd") { r = do_bindcd(w, t); return true; }
+  if (c == "showxml") { r = do_showxml(w, t); return true; }
   if (c == "fill") { r = do_fill(w, t); return true; }
   if (c == "fillblock") { r = do_fillblock(w, t); return true; }
   if (c == "roundtrip") { r = do_roundtrip(w, t); return true; }
